@@ -9,9 +9,24 @@ from vlib.core import Undecided, log
 from props import cons_common as cc
 from props.c01 import load_attacks
 
-WEAK_SOLO = {"PolProposalOverridesLock": "LockRespected", "PrevoteIgnoresLock": "LockRespected", "UnlockOnOlderPolka": "LockRespected",
+WEAK_SOLO = {"RelockKeepsRound": "LockRespected", "PolProposalOverridesLock": "LockRespected", "PrevoteIgnoresLock": "LockRespected", "UnlockOnOlderPolka": "LockRespected",
              "PrecommitWithoutPolka": "PrecommitJustified", "PrecommitUnheldBlock": "PrecommitJustified",
              "ProposeFreshDespiteValid": "ProposalCarriesValid"}
+
+
+SLOW_WEAK = {"RelockKeepsRound", "UnlockOnOlderPolka", "PolProposalOverridesLock"}
+SOLO_ATTACKS = os.path.join(core.VERIF, "spec", "attacks", "C02")
+
+
+def load_solo_attacks():
+    out = {}
+    if os.path.isdir(SOLO_ATTACKS):
+        for f in sorted(os.listdir(SOLO_ATTACKS)):
+            if f.endswith(".json"):
+                with open(os.path.join(SOLO_ATTACKS, f)) as fh:
+                    a = json.load(fh)
+                out[a["weak"]] = a
+    return out
 
 
 def run(ctx):
@@ -82,15 +97,37 @@ def run(ctx):
         exh.append({"config": "solo rounds 0..2 (own proposal in round 2), env values {Z0}", "states": r3.distinct,
                     "complete": not r3.timed_out})
     # non-vacuity: every weakened spec must break its clause
+    # non-vacuity AND attack-schedule synthesis (DESIGN 4.3): every weakened solo spec must break its clause;
+    # TLC's counterexample is the adversary's winning strategy against an implementation with that bug and is
+    # replayed on the real node below (uneventful on correct code)
     nonvac = {}
+    attack_scheds = []
+    lib = load_solo_attacks()
     for weak, inv in WEAK_SOLO.items():
-        m2 = cc.solo_mc(ctx, "C02_weak_" + weak, info, me, 2, ["Z0"], weak=[weak])
-        rw = ctx.tlc(m2, m2 + ".cfg", simulate="num=20000000", depth=60, seed=ctx.seed, timeout=400, label="weak_" + weak)
+        if quick and weak in SLOW_WEAK and weak in lib:
+            # the counterexample search for this switch takes minutes: quick replays the committed schedule
+            # (spec/attacks/C02), thorough re-derives it
+            attack_scheds.append({"id": 800000 + len(attack_scheds), "steps": lib[weak]["steps"]})
+            nonvac[weak] = ["(committed attack schedule; refutation re-run in the thorough tier)"]
+            continue
+        mrw, vals = (3, ["Z0", "Z1"]) if weak == "RelockKeepsRound" else (2, ["Z0"])
+        m2 = cc.solo_mc(ctx, "C02_weak_" + weak, info, me, mrw, vals, weak=[weak])
+        rw = ctx.tlc(m2, m2 + ".cfg", simulate="num=100000000", depth=70, seed=ctx.seed, timeout=400 if quick else 1500,
+                     label="weak_" + weak)
         found = [x["name"] for x in rw.violations]
         nonvac[weak] = found
         if inv not in found:
             ctx.save_log("weak_" + weak, rw.out)
             raise Undecided("vacuity: weakened solo spec %s does not violate %s (found %s)" % (weak, inv, found))
+        steps = []
+        for _h, st in rw.violations[0]["trace"]:
+            steps += cc.solo_act_to_steps(st["act"], me)
+        if steps:
+            attack_scheds.append({"id": 800000 + len(attack_scheds), "steps": steps})
+            if os.environ.get("VERIF_WRITE_ATTACKS") == "1":      # library maintenance only, never in a registered check
+                os.makedirs(SOLO_ATTACKS, exist_ok=True)
+                with open(os.path.join(SOLO_ATTACKS, weak + ".json"), "w") as f:
+                    json.dump({"name": weak, "weak": weak, "violates": inv, "me": me, "powers": powers, "steps": steps}, f, indent=1)
     # behaviours of the solo spec (rounds 0..2, valid and invalid adversarial blocks) replayed on a real
     # node that signs with a real FilePV
     scheds = []
@@ -107,7 +144,7 @@ def run(ctx):
         for sc in more:
             sc["id"] += len(scheds)
         scheds += more
-    wsched = []
+    wsched = list(attack_scheds)
     for g in sorted(witnesses):
         for steps in witnesses[g]:
             wsched.append({"id": 700000 + len(wsched), "steps": steps})
@@ -125,9 +162,14 @@ def run(ctx):
         stats = {k: stats[k] + stats_w[k] for k in stats}
     v = cc.validate(ctx, rows, info, byz, 3, "solo", dedupe=True)
     account(v, rows, "solo")
+    arows, av = cc.amplify_drift(ctx, binp, rows, v["drift"], inp, info, byz, 3, "solo")
+    if av is not None:
+        account(av, arows, "solo, continuations of drifting runs")
+        cov["drift_amplification"] = {"runs": av["runs"], "property_failures": len(av["viol"])}
     cov["configs"].append({"config": "1 correct (power 1) vs 2 adversarial validators (power 2 each)", "exhaustive_tlc": exh,
                            "simulated_behaviours_replayed": len(scheds), "driver": stats,
                            "coverage_goal_witnesses": {g: len(v) for g, v in sorted(witnesses.items())},
+                           "attack_schedules_from_weakened_specs": len(attack_scheds),
                            "events_validated_after_prefix_dedupe": v["events"]})
     tot["samples"].append(core.abridge([{k: r.get(k) for k in ("ev", "n", "m", "k", "signs")} for r in rows if r.get("signs")][:6], 6))
 
